@@ -345,11 +345,36 @@ struct St {
 impl Cyc {
     /// one step: (outcome "ok" | "rejected", proof, stage)
     fn step(&self, cond: bool, inner: &PW) -> (bool, Option<PW>, String) {
+        self.step_with_vd(cond, inner, &self.data.verifier_only)
+    }
+    /// the circuit's verifier data with exactly one component altered: the digest (element `elt`) or one cap element
+    fn bad_vd(&self, component: &str, entry: usize, elt: usize) -> VD {
+        let mut vd = self.data.verifier_only.clone();
+        if component == "digest" {
+            vd.circuit_digest.elements[elt % 4] += F::ONE;
+        } else {
+            let n = vd.constants_sigmas_cap.0.len();
+            vd.constants_sigmas_cap.0[entry % n].elements[elt % 4] += F::ONE;
+        }
+        vd
+    }
+    /// base case (condition = false) run with verifier data `vd` in the verifier-data public inputs: the base proof
+    /// carries the same data, so every constraint of the circuit holds - an otherwise honest link
+    fn bad_base(&self, start: u64, vd: &VD) -> (bool, Option<PW>, String) {
+        let mut m: HashMap<usize, F> = HashMap::new();
+        if start != 0 {
+            m.insert(0, F::from_canonical_u64(start));
+        }
+        let base = cyclic_base_proof(&self.common, vd, m);
+        self.step_with_vd(false, &base, vd)
+    }
+    /// one step with the verifier-data public inputs set to `vd` (the honest prover sets the circuit's own)
+    fn step_with_vd(&self, cond: bool, inner: &PW, vd: &VD) -> (bool, Option<PW>, String) {
         let mut pw = PartialWitness::new();
         let fill = guarded(|| -> anyhow::Result<()> {
             pw.set_bool_target(self.cond, cond)?;
             pw.set_proof_with_pis_target::<C, D>(&self.inner, inner)?;
-            pw.set_verifier_data_target(&self.vdt, &self.data.verifier_only)
+            pw.set_verifier_data_target(&self.vdt, vd)
         });
         if !matches!(fill, Ok(Ok(()))) {
             return (false, None, "assign".into());
@@ -428,7 +453,25 @@ fn cyclic(s: &Value) -> Vec<Value> {
             let mut step_outcome = "n/a".to_string();
             let mut stage = String::new();
             let cached = cache.get(&key).cloned();
-            if act == "StepBase" || act == "StepRec" {
+            if act == "BadBaseDigest" || act == "BadBaseCap" {
+                if let Some(c) = cached.clone() {
+                    st = c;
+                    stage = "cached".into();
+                } else {
+                    let cap_len = x.common.config.fri_config.num_cap_elements();
+                    let (entry, elt) = (r.gen_range(0..cap_len), if r.gen_bool(0.5) { 0 } else { 3 });
+                    let vd = x.bad_vd(if act == "BadBaseDigest" { "digest" } else { "cap" }, entry, elt);
+                    let (ok, p, sg) = x.bad_base(start, &vd);
+                    proved += 1;
+                    stage = format!("{sg} entry {entry} elt {elt}");
+                    if !ok {
+                        return vec![json!({"id": id, "skipped": format!("a base-case proof with one altered verifier-data component could not be made: {stage}")})];
+                    }
+                    st = St { latest: p, n: 1 };
+                    cache.insert(key.clone(), st.clone());
+                }
+                step_outcome = "bad-link".into();
+            } else if act == "StepBase" || act == "StepRec" {
                 // steps are deterministic functions of the prefix up to grinding: shared between histories
                 if let Some(c) = cached.clone() {
                     step_outcome = if act == "StepBase" || c.n > st.n { "ok".into() } else { "rejected".into() };
@@ -487,6 +530,28 @@ fn cyclic(s: &Value) -> Vec<Value> {
             out.push(json!({"id": id, "history": hi, "start": start, "step": si, "act": act, "expect": step["expect"], "step_outcome": step_outcome,
                 "obs": obs, "stage": stage, "inc": x.inc, "model_n": st.n, "foreign_under_its_circuit": foreign_ok}));
         }
+    }
+    // ---- bad links: base-case proofs whose embedded verifier data differ in exactly one component, then extended
+    for bl in s["badlinks"].as_array().cloned().unwrap_or_default() {
+        let comp = bl["component"].as_str().unwrap_or("cap").to_string();
+        let (entry, elt) = (bl["entry"].as_u64().unwrap_or(0) as usize, bl["elt"].as_u64().unwrap_or(0) as usize);
+        let start = bl["start"].as_u64().unwrap_or(7);
+        let vd = x.bad_vd(&comp, entry, elt);
+        let (ok, link, sg) = x.bad_base(start, &vd);
+        proved += 1;
+        let Some(link) = link.filter(|_| ok) else {
+            out.push(json!({"id": id, "badlink": bl, "link_made": false, "stage": sg}));
+            continue;
+        };
+        let link_obs = x.observe(&link);
+        // extend the chain from it with the honest verifier data
+        let (eok, ext, esg) = x.step(true, &link);
+        let ext_obs = ext.as_ref().map(|p| x.observe(p));
+        // depth 2: if the extension exists, extend once more
+        let ext2 = if eok { ext.as_ref().map(|p| { let (ok2, p2, _) = x.step(true, p); (ok2, p2.as_ref().map(|q| x.observe(q))) }) } else { None };
+        out.push(json!({"id": id, "badlink": bl, "link_made": true, "link_obs": link_obs, "extend_outcome": if eok { "ok" } else { "rejected" },
+            "extend_stage": esg.chars().take(90).collect::<String>(), "extended_obs": ext_obs,
+            "extended_twice": ext2.map(|(ok2, o)| json!({"ok": ok2, "obs": o}))}));
     }
     out.push(json!({"id": id, "proofs_made": proved, "prefixes": cache.len(), "ms": t0.elapsed().as_millis() as u64}));
     out
